@@ -20,7 +20,7 @@ theorem Safe.cast {P : α → Prop} {r r' : R α} (h : Safe P r) (e : r = r') : 
 /-- float fact used by the interspecies mate choice: for a draw `f ∈ [0,1)` and `n > 0` species,
     `floor(f/4 * n)` is an index below `n` -/
 def PickLaw (W : Type) [Scalar W] : Prop :=
-  ∀ (x n : Nat), 0 < n → eq (ofUnit63 x : W) one = false →
+  ∀ (x n : Nat), x < 2 ^ 63 → 0 < n → eq (ofUnit63 x : W) one = false →
     0 ≤ floorInt (mul (div (ofUnit63 x : W) (ofInt 4)) (ofInt (n : Int))) ∧
     (floorInt (mul (div (ofUnit63 x : W) (ofInt 4)) (ofInt (n : Int)))).toNat < n
 
@@ -73,7 +73,7 @@ theorem basic_of_wf {g : Genome W} (h : WF g) : Basic g := by
   · have := h.traits; unfold TraitsConsecutive at this; intro e; rw [e] at this; exact this
 
 theorem safe_structStage (hlaw : UnitMulLe W) (o : EpochOpts W) (ha : ActOk o.mopts) (g : Genome W) (reg : Reg W) (f1 : W)
-    (rs1 : List Nat) (S : List Nat) (P : List (Genome W)) (hP : PoolOk reg P) (hf : Fits reg P g) (hsh : shape g = S)
+    (rs1 : List Nat) (hv : Valid rs1) (S : List Nat) (P : List (Genome W)) (hP : PoolOk reg P) (hf : Fits reg P g) (hsh : shape g = S)
     (hr : RecTraits S.length reg) : Safe (BabyPost S P) (structStage o g reg f1 rs1) := by
   have hb := basic_of_wf hf.wft.wf
   have hr' : RecTraits g.traits.length reg := by rw [traitsLen_of_shape hsh]; exact hr
@@ -83,7 +83,7 @@ theorem safe_structStage (hlaw : UnitMulLe W) (o : EpochOpts W) (ha : ActOk o.mo
     rw [← hsh]; unfold shape; rw [hs.2]
   unfold structStage
   split
-  · have h1 := (safe_mutateAddNode hlaw g reg o.mopts rs1 ha hb.traits hr').and_ok
+  · have h1 := (safe_mutateAddNode hlaw g reg o.mopts rs1 hv ha hb.traits hr').and_ok
       (Q := fun r => StructPost g r ∧ Fits r.2.1 P r.1 ∧ PoolOk r.2.1 P)
       (fun a rs' e hp => ⟨hp, addNode_closed o.mopts rs1 rs' a.2.2 hP hf e⟩)
     split
@@ -112,14 +112,14 @@ theorem safe_structStage (hlaw : UnitMulLe W) (o : EpochOpts W) (ha : ActOk o.mo
 
 /-- **the mutation chain of a fresh baby never fails** -/
 theorem safe_mutateBaby (hlaw : UnitMulLe W) (o : EpochOpts W) (ha : ActOk o.mopts) (g : Genome W) (reg : Reg W)
-    (rs : List Nat) (S : List Nat) (P : List (Genome W)) (hP : PoolOk reg P) (hf : Fits reg P g) (hsh : shape g = S)
+    (rs : List Nat) (hv : Valid rs) (S : List Nat) (P : List (Genome W)) (hP : PoolOk reg P) (hf : Fits reg P g) (hsh : shape g = S)
     (hr : RecTraits S.length reg) : Safe (BabyPost S P) (mutateBaby o g reg rs) := by
   rw [mutateBaby_eq]
   have f1 := safe_float64 (W := W) rs
   split
   · next e he => rw [he] at f1; exact f1.of_error
-  · next f1v rs1 _ =>
-    have hs := safe_structStage hlaw o ha g reg f1v rs1 S P hP hf hsh hr
+  · next f1v rs1 hf1 =>
+    have hs := safe_structStage hlaw o ha g reg f1v rs1 (valid_of_ok Rand.float64_prefixDet hv hf1) S P hP hf hsh hr
     split
     · next e he => rw [he] at hs; exact hs.of_error
     · next g' reg' rs' he => rw [he] at hs; exact hs
@@ -137,7 +137,8 @@ theorem safe_mutateBaby (hlaw : UnitMulLe W) (o : EpochOpts W) (ha : ActOk o.mop
 /-! ### reproduceOne -/
 
 theorem safe_pickOtherSpecies (hpick : PickLaw W) (s : Species W) (sorted : List (Species W)) (hne : sorted ≠ [])
-    (n : Nat) (cur : Species W) (rs : List Nat) : Safe (fun sp => sp = cur ∨ sp ∈ sorted) (pickOtherSpecies s sorted n cur rs) := by
+    (n : Nat) (cur : Species W) (rs : List Nat) (hv : Valid rs) :
+    Safe (fun sp => sp = cur ∨ sp ∈ sorted) (pickOtherSpecies s sorted n cur rs) := by
   have h0 : Safe (fun _ => True) (pickOtherSpecies s sorted n cur rs) := by
     induction n generalizing cur rs with
     | zero => unfold pickOtherSpecies; trivial
@@ -148,14 +149,15 @@ theorem safe_pickOtherSpecies (hpick : PickLaw W) (s : Species W) (sorted : List
         split
         · next e he => rw [he] at hf; exact hf.of_error
         · next f rs' he =>
+          have hv' := valid_of_ok Rand.float64_prefixDet hv he
           rw [he] at hf
-          obtain ⟨x, rfl, hx⟩ := hf
-          obtain ⟨p1, p2⟩ := hpick x sorted.length (List.length_pos_iff.mpr hne) hx
+          obtain ⟨x, hxm, rfl, hx⟩ := hf
+          obtain ⟨p1, p2⟩ := hpick x sorted.length (hv x hxm) (List.length_pos_iff.mpr hne) hx
           simp only
           rw [if_neg (by omega)]
           split
           · next hn => rw [List.getElem?_eq_none_iff] at hn; omega
-          · exact ih _ _
+          · exact ih _ _ hv'
       · trivial
   exact h0.and_ok (fun a rs' e _ => pickOtherSpecies_mem s sorted n cur a rs rs' e)
 
@@ -221,8 +223,13 @@ def dadStage (o : EpochOpts W) (s : Species W) (sorted : List (Species W)) (f2 :
       | none => .error (.error "panic:index")
       | some d => .ok (d, rs4)
 
+theorem dadStage_prefixDet (o : EpochOpts W) (s : Species W) (sorted : List (Species W)) (f2 : W) :
+    PrefixDet (dadStage o s sorted f2) := by
+  unfold dadStage
+  pd_auto
+
 theorem safe_dadStage (hpick : PickLaw W) (o : EpochOpts W) (s : Species W) (sorted : List (Species W)) (f2 : W) (rs3 : List Nat)
-    (hne : s.orgs ≠ []) (hsne : sorted ≠ []) (hspne : ∀ sp ∈ sorted, sp.orgs ≠ []) :
+    (hv : Valid rs3) (hne : s.orgs ≠ []) (hsne : sorted ≠ []) (hspne : ∀ sp ∈ sorted, sp.orgs ≠ []) :
     Safe (fun d => d ∈ s.orgs ∨ ∃ sp ∈ sorted, d ∈ sp.orgs) (dadStage o s sorted f2 rs3) := by
   unfold dadStage
   split
@@ -235,7 +242,7 @@ theorem safe_dadStage (hpick : PickLaw W) (o : EpochOpts W) (s : Species W) (sor
       split
       · next hn => rw [List.getElem?_eq_none_iff] at hn; omega
       · next d hd => exact Or.inl (List.mem_of_getElem? hd)
-  · have h1 := safe_pickOtherSpecies hpick s sorted hsne 5 s rs3
+  · have h1 := safe_pickOtherSpecies hpick s sorted hsne 5 s rs3 hv
     split
     · next e he => rw [he] at h1; exact h1.of_error
     · next sp rs4 he =>
@@ -263,6 +270,11 @@ def childStage (o : EpochOpts W) (mom dad : Org W) (count : Int) (f3 : W) (rs5 :
       if lt f4 (div o.mateMultipointAvgProb (add o.mateMultipointAvgProb o.mateSinglepointProb)) then
         mateMultipointAvg mom.genome dad.genome count mom.originalFitness dad.originalFitness rs6
       else mateSinglePoint mom.genome dad.genome count rs6
+
+theorem childStage_prefixDet (o : EpochOpts W) (mom dad : Org W) (count : Int) (f3 : W) :
+    PrefixDet (childStage o mom dad count f3) := by
+  unfold childStage
+  pd_auto
 
 theorem safe_childStage (o : EpochOpts W) (mom dad : Org W) (count : Int) (f3 : W) (rs5 : List Nat)
     (reg : Reg W) (P : List (Genome W)) (S : List Nat)
@@ -305,7 +317,7 @@ theorem post_finish {S : List Nat} {P0 : List (Genome W)} {st st' : ReproState W
 
 /-- **one offspring never fails**, whichever branch `Species.reproduce` takes -/
 theorem safe_reproduceOne (hlaw : UnitMulLe W) (hpick : PickLaw W) (o : EpochOpts W) (ha : ActOk o.mopts) (generation : Int)
-    (s : Species W) (sorted : List (Species W)) (champ : Org W) (count : Int) (st : ReproState W) (rs : List Nat)
+    (s : Species W) (sorted : List (Species W)) (champ : Org W) (count : Int) (st : ReproState W) (rs : List Nat) (hv : Valid rs)
     (P0 : List (Genome W)) (S : List Nat)
     (hchamp : champ.genome ∈ P0) (hs : ∀ x ∈ s.orgs, x.genome ∈ P0)
     (hsorted : ∀ sp ∈ sorted, ∀ x ∈ sp.orgs, x.genome ∈ P0)
@@ -344,13 +356,15 @@ theorem safe_reproduceOne (hlaw : UnitMulLe W) (hpick : PickLaw W) (o : EpochOpt
     · have f1 := safe_float64 (W := W) rs
       split
       · next e he => rw [he] at f1; exact f1.of_error
-      · next f rs1 _ =>
+      · next f rs1 hf1 =>
+        have hv1 := valid_of_ok Rand.float64_prefixDet hv hf1
         have hi := safe_intn s.orgs.length (List.length_pos_iff.mpr hne) rs1
         split
         · -- mutation only
           split
           · next e he => rw [he] at hi; exact hi.of_error
           · next k rs2 he =>
+            have hv2 := valid_of_ok (Rand.intn_prefixDet _) hv1 he
             rw [he] at hi
             have hk : k < s.orgs.length := hi
             split
@@ -361,7 +375,7 @@ theorem safe_reproduceOne (hlaw : UnitMulLe W) (hpick : PickLaw W) (o : EpochOpt
               · next e he2 => rw [hdup _ hm] at he2; cases he2
               · next g0 he2 =>
                 rw [hdup _ hm] at he2; cases he2
-                have hb := safe_mutateBaby hlaw o ha { mom.genome with id := count } st.reg rs2 S (poolOf P0 st) hP
+                have hb := safe_mutateBaby hlaw o ha { mom.genome with id := count } st.reg rs2 hv2 S (poolOf P0 st) hP
                   (fdup _ hm) (hshin mom.genome hm) hr
                 split
                 · next e he3 => rw [he3] at hb; exact hb.of_error
@@ -373,6 +387,7 @@ theorem safe_reproduceOne (hlaw : UnitMulLe W) (hpick : PickLaw W) (o : EpochOpt
           split
           · next e he => rw [he] at hi; exact hi.of_error
           · next k rs2 he =>
+            have hv2 := valid_of_ok (Rand.intn_prefixDet _) hv1 he
             rw [he] at hi
             have hk : k < s.orgs.length := hi
             split
@@ -382,11 +397,13 @@ theorem safe_reproduceOne (hlaw : UnitMulLe W) (hpick : PickLaw W) (o : EpochOpt
               have f2 := safe_float64 (W := W) rs2
               split
               · next e he2 => rw [he2] at f2; exact f2.of_error
-              · next f2v rs3 _ =>
-                have hd := safe_dadStage hpick o s sorted f2v rs3 hne hsne hspne
+              · next f2v rs3 hf2 =>
+                have hv3 := valid_of_ok Rand.float64_prefixDet hv2 hf2
+                have hd := safe_dadStage hpick o s sorted f2v rs3 hv3 hne hsne hspne
                 split
                 · next e he3 => exact (hd.cast he3).of_error
                 · next dad rs4 he3 =>
+                  have hv4 : Valid rs4 := valid_of_ok (dadStage_prefixDet o s sorted f2v) hv3 he3
                   have hdm : dad ∈ s.orgs ∨ ∃ sp ∈ sorted, dad ∈ sp.orgs := hd.cast he3
                   have hdP : dad.genome ∈ P0 := by
                     rcases hdm with h | ⟨sp, h1, h2⟩
@@ -395,19 +412,22 @@ theorem safe_reproduceOne (hlaw : UnitMulLe W) (hpick : PickLaw W) (o : EpochOpt
                   have f3 := safe_float64 (W := W) rs4
                   split
                   · next e he4 => rw [he4] at f3; exact f3.of_error
-                  · next f3v rs5 _ =>
+                  · next f3v rs5 hf3 =>
+                    have hv5 := valid_of_ok Rand.float64_prefixDet hv4 hf3
                     have hc := safe_childStage o mom dad count f3v rs5 st.reg (poolOf P0 st) S (hin _ hm) (hin _ hdP)
                       (List.mem_append_left _ hdP) (hshin mom.genome hm) (hshin _ hdP)
                     split
                     · next e he5 => exact (hc.cast he5).of_error
                     · next child rs7 he5 =>
+                      have hv7 : Valid rs7 := valid_of_ok (childStage_prefixDet o mom dad count f3v) hv5 he5
                       have hc' : shape child = S ∧ Fits st.reg (poolOf P0 st) child := hc.cast he5
                       have f5 := safe_float64 (W := W) rs7
                       split
                       · next e he6 => rw [he6] at f5; exact f5.of_error
-                      · next f5v rs8 _ =>
+                      · next f5v rs8 hf5 =>
+                        have hv8 := valid_of_ok Rand.float64_prefixDet hv7 hf5
                         split
-                        · have hb := safe_mutateBaby hlaw o ha child st.reg rs8 S (poolOf P0 st) hP hc'.2 hc'.1 hr
+                        · have hb := safe_mutateBaby hlaw o ha child st.reg rs8 hv8 S (poolOf P0 st) hP hc'.2 hc'.1 hr
                           split
                           · next e he7 => rw [he7] at hb; exact hb.of_error
                           · next g1 reg1 ms rs9 he7 =>
@@ -423,7 +443,7 @@ theorem safe_reproduceLoop (hlaw : UnitMulLe W) (hpick : PickLaw W) (o : EpochOp
     (hchamp : champ.genome ∈ P0) (hs : ∀ x ∈ s.orgs, x.genome ∈ P0)
     (hsorted : ∀ sp ∈ sorted, ∀ x ∈ sp.orgs, x.genome ∈ P0)
     (hne : s.orgs ≠ []) (hsne : sorted ≠ []) (hspne : ∀ sp ∈ sorted, sp.orgs ≠ [])
-    (n : Nat) (count : Int) (st : ReproState W) (rs : List Nat)
+    (n : Nat) (count : Int) (st : ReproState W) (rs : List Nat) (hv : Valid rs)
     (hP : PoolOk st.reg (poolOf P0 st)) (hr : RecTraits S.length st.reg) (hsh : ∀ g ∈ poolOf P0 st, shape g = S) :
     Safe (fun st' => ReproPost S P0 st' ∧ PoolOk st'.reg (poolOf P0 st'))
       (reproduceLoop o generation s sorted champ n count st rs) := by
@@ -431,15 +451,14 @@ theorem safe_reproduceLoop (hlaw : UnitMulLe W) (hpick : PickLaw W) (o : EpochOp
   | zero => unfold reproduceLoop; exact ⟨⟨hr, hsh⟩, hP⟩
   | succ k ih =>
     unfold reproduceLoop
-    have h1 := (safe_reproduceOne hlaw hpick o ha generation s sorted champ count st rs P0 S hchamp hs hsorted hne hsne hspne
+    have h1 := (safe_reproduceOne hlaw hpick o ha generation s sorted champ count st rs hv P0 S hchamp hs hsorted hne hsne hspne
       hP hr hsh).and_ok (Q := fun st' => ReproPost S P0 st' ∧ PoolOk st'.reg (poolOf P0 st'))
       (fun st' rs' e hp => ⟨hp, reproduceOne_closed o generation s sorted champ count st st' rs rs' P0 hchamp hs hsorted hP e⟩)
     split
     · next e he => rw [he] at h1; exact h1.of_error
     · next st' rs' he =>
-      rw [he] at h1
-      have h1' : ReproPost S P0 st' ∧ PoolOk st'.reg (poolOf P0 st') := h1
-      exact ih (count + 1) st' rs' h1'.2 h1'.1.1 h1'.1.2
+      have h1' : ReproPost S P0 st' ∧ PoolOk st'.reg (poolOf P0 st') := by rw [he] at h1; exact h1
+      exact ih (count + 1) st' rs' (valid_of_ok (reproduceOne_prefixDet _ _ _ _ _ _ _) hv he) h1'.2 h1'.1.1 h1'.1.2
 
 /-- the state of the pool between species: registry invariant, pool invariant, one shape -/
 structure PoolEnv (S : List Nat) (reg : Reg W) (P : List (Genome W)) : Prop where
@@ -449,7 +468,7 @@ structure PoolEnv (S : List Nat) (reg : Reg W) (P : List (Genome W)) : Prop wher
 
 /-- **`Species.reproduce` never fails** on a non-empty species -/
 theorem safe_reproduceSpecies (hlaw : UnitMulLe W) (hpick : PickLaw W) (o : EpochOpts W) (ha : ActOk o.mopts) (generation : Int)
-    (s : Species W) (sorted : List (Species W)) (reg : Reg W) (uid : Nat) (rs : List Nat) (P0 : List (Genome W)) (S : List Nat)
+    (s : Species W) (sorted : List (Species W)) (reg : Reg W) (uid : Nat) (rs : List Nat) (hv : Valid rs) (P0 : List (Genome W)) (S : List Nat)
     (hs : ∀ x ∈ s.orgs, x.genome ∈ P0) (hsorted : ∀ sp ∈ sorted, ∀ x ∈ sp.orgs, x.genome ∈ P0)
     (hne : s.orgs ≠ []) (hsne : sorted ≠ []) (hspne : ∀ sp ∈ sorted, sp.orgs ≠ [])
     (henv : PoolEnv S reg P0) :
@@ -463,7 +482,7 @@ theorem safe_reproduceSpecies (hlaw : UnitMulLe W) (hpick : PickLaw W) (o : Epoc
     simp only
     have hl := safe_reproduceLoop hlaw hpick o ha generation s sorted champ P0 S (hs champ (List.mem_of_mem_head? hchamp)) hs hsorted
       hne hsne hspne s.expectedOffspring.toNat 0
-      { superChamp := champ.superChampOffspring, champCloneDone := false, reg := reg, nextUid := uid, babies := [] } rs
+      { superChamp := champ.superChampOffspring, champCloneDone := false, reg := reg, nextUid := uid, babies := [] } rs hv
       (by simpa [poolOf] using henv.pool) henv.recs (by simpa [poolOf] using henv.shaped)
     split
     · next e he => rw [he] at hl; exact hl.of_error
@@ -477,23 +496,22 @@ theorem safe_reproduceAll (hlaw : UnitMulLe W) (hpick : PickLaw W) (o : EpochOpt
     (sorted : List (Species W)) (P0 : List (Genome W)) (S : List Nat)
     (hsorted : ∀ sp ∈ sorted, ∀ x ∈ sp.orgs, x.genome ∈ P0) (hsne : sorted ≠ []) (hspne : ∀ sp ∈ sorted, sp.orgs ≠ [])
     (ss : List (Species W)) (hss : ∀ s ∈ ss, ∀ x ∈ s.orgs, x.genome ∈ P0) (hssne : ∀ s ∈ ss, s.orgs ≠ [])
-    (reg : Reg W) (uid : Nat) (babies : List (Org W)) (rs : List Nat)
+    (reg : Reg W) (uid : Nat) (babies : List (Org W)) (rs : List Nat) (hv : Valid rs)
     (henv : PoolEnv S reg (P0 ++ babies.map (·.genome))) :
     Safe (fun r => PoolEnv S r.2.1 (P0 ++ r.1.map (·.genome))) (reproduceAll o generation sorted ss reg uid babies rs) := by
   induction ss generalizing reg uid babies rs with
   | nil => unfold reproduceAll; exact henv
   | cons s t ih =>
     unfold reproduceAll
-    have h1 := safe_reproduceSpecies hlaw hpick o ha generation s sorted reg uid rs (P0 ++ babies.map (·.genome)) S
+    have h1 := safe_reproduceSpecies hlaw hpick o ha generation s sorted reg uid rs hv (P0 ++ babies.map (·.genome)) S
       (fun x hx => List.mem_append_left _ (hss s (by simp) x hx))
       (fun sp hsp' x hx => List.mem_append_left _ (hsorted sp hsp' x hx))
       (hssne s (by simp)) hsne hspne henv
     split
     · next e he => rw [he] at h1; exact h1.of_error
     · next bs reg' uid' rs' he =>
-      rw [he] at h1
-      have h1' : PoolEnv S reg' ((P0 ++ babies.map (·.genome)) ++ bs.map (·.genome)) := h1
+      have h1' : PoolEnv S reg' ((P0 ++ babies.map (·.genome)) ++ bs.map (·.genome)) := by rw [he] at h1; exact h1
       exact ih (fun s' hs' => hss s' (List.mem_cons_of_mem _ hs')) (fun s' hs' => hssne s' (List.mem_cons_of_mem _ hs'))
-        reg' uid' (babies ++ bs) rs' (by simpa [List.append_assoc] using h1')
+        reg' uid' (babies ++ bs) rs' (valid_of_ok (reproduceSpecies_prefixDet _ _ _ _ _ _) hv he) (by simpa [List.append_assoc] using h1')
 
 end GoNeat.NoErr
